@@ -19,7 +19,8 @@ RULE = ("Hypothesis-generated project states (sources in nested packages + a con
         "cwd, frozen harness clock, virtual kernel for `run`. Metamorphic oracle against the copy run from the root: same exit "
         "status; same stdout/stderr after mapping each copy's root to <ROOT> and resolving printed relative paths against the "
         "cwd they were printed for; same resulting tree (names, types, bytes), rows and spawn log. Additionally an inner project (own cond_config.toml) is planted below a directory of the outer one: commands run at and below "
-        "it must act on the inner root only (nearest ancestor). Non-trivial = cwd != root and "
+        "it must act on the inner root only (nearest ancestor). 0-2 directories that other tools take for a project root are planted too (a nested .git directory, "
+        "a submodule's .git file, .hg, .svn, a pyproject.toml, a directory named cond-out below docs/) and are used as cwd. Non-trivial = cwd != root and "
         "the command has an observable effect or prints a location. Distinct = SHA-1 of case JSON.")
 ASSUMPTIONS = ["task identifiers on the command line are absolute (//pkg:name); output paths given with -o / restore are absolute",
                "`where -p` prints a path relative to the project root by definition, so it must be literally identical from every directory"]
@@ -74,7 +75,20 @@ def _case(draw, tier):
         c["flags"] = draw(st.sampled_from([[], ["-l"], ["TASK"], ["-l", "TASK"]]))
         c["out"] = draw(st.sampled_from(["default", "abs"]))
     g["command"] = c
+    # directories that OTHER tools would take for a project root (a vendored checkout, a submodule, a Mercurial clone, a
+    # Python package, a directory called cond-out): Conductor's root is the nearest cond_config.toml and nothing else
+    g["markers"] = draw(st.lists(st.sampled_from(sorted(MARKERS)), min_size=0, max_size=2, unique=True))
     return g
+
+
+MARKERS = {
+    "git_dir": [("vendor/lib/.git/HEAD", "ref: refs/heads/main\n"), ("vendor/lib/src/x.txt", "x")],
+    "git_file": [("vendor/sub/.git", "gitdir: ../../.git/modules/sub\n"), ("vendor/sub/scripts/run.sh", "true\n")],
+    "hg_dir": [("vendor/hgrepo/.hg/requires", "store\n"), ("vendor/hgrepo/a/b.txt", "b")],
+    "py_project": [("vendor/py/pyproject.toml", "[project]\nname = 'x'\n"), ("vendor/py/setup.py", ""), ("vendor/py/pkg/__init__.py", "")],
+    "nested_cond_out": [("docs/cond-out/a/keep.txt", "not the project's cond-out")],
+    "svn_dir": [("vendor/old/.svn/entries", "12\n"), ("vendor/old/trunk/f", "f")],
+}
 
 
 def strategy(tier):
@@ -120,6 +134,12 @@ def _run(case, work):
     with open(os.path.join(base, "docs", "readme.txt"), "w") as f:
         f.write("no COND file here")
     labels = set()
+    for mk in case.get("markers", []):
+        labels.add("foreign_root_marker:" + mk)
+        for rel, text in MARKERS[mk]:
+            os.makedirs(os.path.dirname(os.path.join(base, rel)), exist_ok=True)
+            with open(os.path.join(base, rel), "w") as f:
+                f.write(text)
     v = []
     clock = 1000.0
     for inv in case["history"]:
@@ -148,8 +168,11 @@ def _run(case, work):
         rel = os.path.relpath(dp, base)
         dirs.append("" if rel == "." else rel)
     dirs.sort(key=lambda d: (d != "", d))
-    if len(dirs) > 14:
-        dirs = dirs[:1] + dirs[1::max(1, len(dirs) // 12)]
+    if len(dirs) > 16:
+        # keep the root, every directory at or below a foreign root marker, and a stride sample of the rest
+        marked = [d for d in dirs if d.startswith("vendor/") or d.startswith("docs/cond-out")]
+        rest = [d for d in dirs[1:] if d not in marked]
+        dirs = dirs[:1] + rest[::max(1, len(rest) // 10)] + marked[:6]
     rows_base = projgen.read_rows(base)
     unrecorded = False
     for dp, dn, fn in os.walk(os.path.join(base, "cond-out")) if os.path.isdir(os.path.join(base, "cond-out")) else []:
